@@ -287,7 +287,7 @@ func classifyErr(err error) string {
 }
 
 // rawSign performs one signing call on the real FilePV.
-func rawSign(pv *privval.FilePV, q req) (res rawResult) {
+func rawSign(pv types.PrivValidator, q req) (res rawResult) {
 	defer func() {
 		if r := recover(); r != nil {
 			res = rawResult{class: "panic"}
@@ -419,7 +419,11 @@ func writeState(keyPath, statePath string, m map[string]string, t *sigTable) boo
 
 // ---- executor 1: in-process, emulated crashes ----
 
-func execEmu(c core.Case) []string {
+func execEmu(c core.Case) []string { return execLocal(c, false) }
+
+// execLocal: in-process executor; remoteMode puts SignerClient -> socket -> SignerServer between the
+// requests and the FilePV (remote.go)
+func execLocal(c core.Case, remoteMode bool) []string {
 	dir, err := os.MkdirTemp("", "c04-")
 	if err != nil {
 		panic(err)
@@ -430,6 +434,18 @@ func execEmu(c core.Case) []string {
 	pv.Save()
 	t := &sigTable{m: map[string]string{}}
 	reload := func() { pv = privval.LoadFilePV(keyPath, statePath) }
+	doSign := func(q req, lost bool) rawResult { return rawSign(pv, q) }
+	memLSS := func() lssRaw { return lssOf(&pv.LastSignState) }
+	if remoteMode {
+		rm, err := newRemote(keyPath, statePath)
+		if err != nil {
+			panic(err)
+		}
+		defer rm.close()
+		reload = rm.restartServer
+		doSign = rm.sign
+		memLSS = rm.mem
+	}
 	var out []string
 	for _, op := range c.Ops {
 		f := strings.Fields(op)
@@ -468,7 +484,7 @@ func execEmu(c core.Case) []string {
 				if err := os.Rename(dir, off); err != nil {
 					panic(err)
 				}
-				r := rawSign(pv, q)
+				r := doSign(q, false)
 				if err := os.Rename(off, dir); err != nil {
 					panic(err)
 				}
@@ -482,7 +498,7 @@ func execEmu(c core.Case) []string {
 				continue
 			}
 			if !crash {
-				out = append(out, t.showResult(q, rawSign(pv, q)))
+				out = append(out, t.showResult(q, doSign(q, m["lost"] == "1")))
 				continue
 			}
 			k, err := strconv.ParseUint(ks, 10, 31)
@@ -492,7 +508,7 @@ func execEmu(c core.Case) []string {
 			}
 			if k > 0 {
 				before, _ := os.ReadFile(statePath)
-				rawSign(pv, q) // answer dropped: the process dies before it leaves
+				doSign(q, false) // answer dropped: the process dies before it leaves
 				after, _ := os.ReadFile(statePath)
 				if !bytes.Equal(before, after) && k <= 4 {
 					// died before the rename: the state file is still the old one
@@ -512,7 +528,7 @@ func execEmu(c core.Case) []string {
 				out = append(out, "state-unreadable")
 				continue
 			}
-			out = append(out, "disk="+t.showLSS(d)+" mem="+t.showLSS(lssOf(&pv.LastSignState)))
+			out = append(out, "disk="+t.showLSS(d)+" mem="+t.showLSS(memLSS()))
 		case f[0] == "node":
 			out = append(out, execNode(core.Case{Ops: []string{op}})[0])
 		default:
@@ -918,6 +934,9 @@ func execKill(c core.Case) []string {
 func execCase(c core.Case) []string {
 	if c.Kind == "node" {
 		return execNode(c)
+	}
+	if strings.HasPrefix(c.Kind, "remote") {
+		return execLocal(c, true)
 	}
 	if strings.HasPrefix(c.Kind, "kill") {
 		return execKill(c)
@@ -1397,6 +1416,49 @@ func genNode(r *rand.Rand, n int, emit func(core.Case)) {
 	}
 }
 
+// remote signer: valid requests on one chain (the SignerServer is bound to its chain id), requests
+// whose answer is slower than the client's read timeout (lost=1: retried on a new connection),
+// signer restarts, crashes inside a request, state-file write failures, equivocation attempts
+func genRemote(r *rand.Rand, n int, emit func(core.Case)) {
+	bids := []string{"-:0:-", hashA + ":1:" + hashP, hashB + ":1:" + hashP}
+	for c := 0; c < n; c++ {
+		var ops []string
+		x := hrs{int64(1 + r.Intn(2)), 0, 1 + r.Intn(3)}
+		for s := 0; s < 4+r.Intn(8); s++ {
+			bid, ts := bids[r.Intn(len(bids))], int64(r.Intn(3))
+			op := signOp(r, x, bid, ts, remoteChain)
+			switch r.Intn(8) {
+			case 0, 1:
+				ops = append(ops, op+" lost=1")
+				if r.Intn(2) == 0 { // the caller asks again, maybe for another block
+					ops = append(ops, signOp(r, x, bids[r.Intn(len(bids))], ts+1, remoteChain))
+				}
+			case 2:
+				ops = append(ops, op+fmt.Sprintf(" crash=%d", 1+r.Intn(5)))
+				ops = append(ops, signOp(r, x, bids[r.Intn(len(bids))], ts+1, remoteChain))
+			case 3:
+				ops = append(ops, op+" fail=1", signOp(r, x, bid, ts, remoteChain))
+			default:
+				ops = append(ops, op)
+			}
+			if r.Intn(6) == 0 {
+				ops = append(ops, "crash")
+			}
+			if r.Intn(4) == 0 {
+				ops = append(ops, "state")
+			}
+			if r.Intn(3) != 0 {
+				x = next(r, x)
+				if x.h < 0 || x.r < 0 {
+					x = hrs{1, 0, 1}
+				}
+			}
+		}
+		ops = append(ops, "state")
+		emit(core.Case{Kind: "remote-signer", Ops: ops})
+	}
+}
+
 func main() {
 	if root := os.Getenv("TMH_C04_NODE_INIT"); root != "" { // diagnostics: create a node directory
 		if err := nodeInit(root); err != nil {
@@ -1432,6 +1494,11 @@ func main() {
 				nn, _ = strconv.Atoi(os.Getenv("VERIF_C04_NODES"))
 			}
 			genNode(r, nn, emit)
+			nr := 20
+			if tier == "thorough" {
+				nr = 300
+			}
+			genRemote(r, nr, emit)
 			genWalk(r, "walk", n, 25, emit)
 			genCrashStorm(r, "crash-storm", n, emit)
 			genHostile(r, n/2, emit)
@@ -1458,7 +1525,7 @@ func main() {
 			}
 			return ok >= 1 && (ok+crashed) >= 2
 		},
-		Rule: "random walks over (height, round, step) with repeats, regressions, same-HRS re-requests for the same / another block, new timestamps, other chain ids, nil / malformed block ids; crash storms (up to 3 crashes per step at micro-steps 1..5, each followed by a re-request); requests during which the state file cannot be written (fail=1: directory moved away in-process, RLIMIT_NOFILE=0 in the child; a panic of the signer = process death and restart from disk, any other answer = the process goes on) followed by retries, a restart and a request for another block; hostile hand-written state files (sign bytes without signature, signature over other content, negative heights); malformed op lines. Kinds kill-*: the signer runs in a child process and every crash is a true SIGKILL injected by strace at the openat / write / renameat / unlinkat of WriteFileAtomic (or a self-kill right after Sign returns), followed by a restart from the directory. Kind node: a single-validator node (consensus.State, on-disk WAL, goleveldb, in-process kvstore, real FilePV behind a wrapper that journals+fsyncs every returned signature) runs in a child, is killed by strace at the n-th write / fsync / renameat / openat of some thread up to 3 times, optionally loses up to 60 bytes of the WAL head file, and is restarted; the union of the journals goes to the same oracle (timing dependent: the witness journal is saved next to the replay file). Non-trivial = at least one released signature and at least two released-or-crashed requests; distinct by hash of the op list",
+		Rule: "random walks over (height, round, step) with repeats, regressions, same-HRS re-requests for the same / another block, new timestamps, other chain ids, nil / malformed block ids; crash storms (up to 3 crashes per step at micro-steps 1..5, each followed by a re-request); requests during which the state file cannot be written (fail=1: directory moved away in-process, RLIMIT_NOFILE=0 in the child; a panic of the signer = process death and restart from disk, any other answer = the process goes on) followed by retries, a restart and a request for another block; hostile hand-written state files (sign bytes without signature, signature over other content, negative heights); malformed op lines. Kinds kill-*: the signer runs in a child process and every crash is a true SIGKILL injected by strace at the openat / write / renameat / unlinkat of WriteFileAtomic (or a self-kill right after Sign returns), followed by a restart from the directory. Kind remote-signer: the same requests through SignerClient -> unix socket -> SignerServer -> FilePV with answers slower than the client's read timeout (RetrySignerClient retries on a new connection after the signer has signed and persisted), signer restarts and write failures. Kind node: a single-validator node (consensus.State, on-disk WAL, goleveldb, in-process kvstore, real FilePV behind a wrapper that journals+fsyncs every returned signature) runs in a child, is killed by strace at the n-th write / fsync / renameat / openat of some thread up to 3 times, optionally loses up to 60 bytes of the WAL head file, and is restarted; the union of the journals goes to the same oracle (timing dependent: the witness journal is saved next to the replay file). Non-trivial = at least one released signature and at least two released-or-crashed requests; distinct by hash of the op list",
 		Assumptions: []string{
 			"ed25519 signing is deterministic; the signature scheme is a parameter sigOf of the model, the driver instantiates it with the ideal scheme (a signature is the content it signs) and the harness maps real signatures to the content they verify for",
 			"rename(2) atomically replaces the state file and an O_SYNC write is durable when it returns (file-system hypotheses; the kill stream checks them against process death only, not power loss)",
@@ -1483,6 +1550,7 @@ func main() {
 				"node_incarnations": nodeIncarnations.Load(), "node_incarnations_killed": nodeKilled.Load(), "node_kill_syscall_histogram": nh,
 				"node_final_reached_height": nodeReached.Load(), "node_final_stuck": nodeStuck.Load(), "node_final_stuck_without_wal_truncation": nodeStuckNoLoss.Load(), "node_final_start_failed": nodeStartFail.Load(),
 				"node_journal_entries": nodeJournalEntries.Load(), "node_journal_repeated_messages": nodeReused.Load(),
+				"remote_signer_slow_answers": remoteLost.Load(), "remote_signer_restarts": remoteRestarts.Load(),
 				"persist_failure_ops": persistFails.Load(), "persist_failure_process_survived_with_other_answer": persistFailSurvived.Load(),
 				"true_kills_aimed": killsAimed.Load(), "true_kills_landed_in_persistence": killsLanded.Load(),
 				"true_kills_after_return_selfkill": killsHeld.Load(), "true_kills_missed_fallback_emulated": killsMissed.Load(),
